@@ -145,3 +145,17 @@ Example C04_example_add_remove :
   near_root 2000000 1000000 50000 0 24883 /\
   calc_swap_result false 2000000 (50000 - 25117) 1000000 0 3000000000000000 = Ok (12252, 36).
 Proof. split; [vm_compute; reflexivity|]. split; [vm_compute; reflexivity|]. split; [unfold near_root; vm_compute; discriminate|vm_compute; reflexivity]. Qed.
+
+(* margin-enabled pools: a removal (by basis points or by units) that is executed leaves the pool with a health of at least
+   the removal-queue threshold — liquidity cannot be pulled from under the open positions *)
+From Sif Require Import Proofs.ClpHealth.
+Theorem C04_removal_keeps_pool_health : forall s sg a w asym s',
+  remove_liquidity s sg a w asym = Ok s' -> existsb (Z.eqb a) (cp_margin (cs_params s)) = true ->
+  exists pl', get a (cs_pools s') = Some pl' /\ cp_rq_threshold (cs_params s) <= pool_health (p_nb pl') (p_nl pl') (p_eb pl') (p_el pl').
+Proof. exact remove_liquidity_health. Qed.
+Print Assumptions C04_removal_keeps_pool_health.
+Theorem C04_removal_by_units_keeps_pool_health : forall s sg a u s',
+  remove_liquidity_units s sg a u = Ok s' -> existsb (Z.eqb a) (cp_margin (cs_params s)) = true ->
+  exists pl', get a (cs_pools s') = Some pl' /\ cp_rq_threshold (cs_params s) <= pool_health (p_nb pl') (p_nl pl') (p_eb pl') (p_el pl').
+Proof. exact remove_liquidity_units_health. Qed.
+Print Assumptions C04_removal_by_units_keeps_pool_health.
